@@ -62,7 +62,7 @@ fn main() {
         }
         "c01" => {
             // Exec model vs interpret_ir (tie) and Sem specification vs interpret_ir (oracle)
-            let mut o = out::Out::new(&args.out, "From TF Require Import Run.", 40);
+            let mut o = out::Out::new(&args.out, "From TF Require Import Run RunHyps.", 40);
             c01::run(args.seed, args.n, &mut o, true, 3, false);
             // a slice of the fold-count template family (C22): early termination is part of "the rows"
             c22::run(args.seed ^ 0x22, (args.n / 8).max(10), &mut o);
@@ -80,7 +80,7 @@ fn main() {
             o.finish();
         }
         "c22" => {
-            let mut o = out::Out::new(&args.out, "From TF Require Import Run.", 60);
+            let mut o = out::Out::new(&args.out, "From TF Require Import Run RunHyps.", 60);
             c22::run(args.seed, args.n, &mut o);
             o.finish();
         }
